@@ -31,6 +31,8 @@ pub enum ExprRef {
     Pool(usize),
     /// index into the invalid pool
     Bad(usize),
+    /// index into the corpus extracted from the repository's own tests (sim/pools/corpus.txt)
+    Corpus(usize),
     /// the string MathCAT returned from the last successful set_mathml
     Feedback,
     Lit(String),
